@@ -327,6 +327,24 @@ func c01Scenarios(th bool) []*Scn {
 			}
 		}
 	}
+	// slow plugin callbacks: the API tail starts while an FSM goroutine sits inside a callback that takes
+	// 300 ms (100 ms in / at the instant it returns); OnClose: the second call of a tail meets it
+	for _, cb := range []io{{false, -1, stay}, {true, stay, -1}, {false, stay, stay}, {false, -1, 5}} {
+		for _, tail := range []int{0, 1, 2, 4, 5} {
+			for _, kind := range []string{"GetCapabilities", "OnOpenMessage", "OnEstablished", "OnClose"} {
+				for _, t := range []int{100, 300} {
+					if kind == "OnClose" && t == 300 {
+						continue
+					}
+					p := c01Params{passive: cb.passive, in: cb.in, out: cb.out, tail: tail, trigK: "time", trigN: t}
+					if tail >= 4 {
+						p.api2J = 6
+					}
+					out = append(out, slowTwin(c01Scn(p, 1), kind, 1, 300*time.Millisecond))
+				}
+			}
+		}
+	}
 	// several peers with Established sessions at shutdown
 	for _, n := range []int{2, 3} {
 		for _, t := range []int{0, 3000} {
@@ -440,7 +458,7 @@ func c01Lookup(name string) *Scn {
 func init() {
 	harness.Register(&harness.Check{
 		Property: "C01", Level: "model_checking", NeedsConc: true, QuickS: 200, ThoroughS: 1500,
-		Rule:   "stateless model checking of the real (rewritten) corebgp: {active, passive} x first inbound script x first outbound script (8 scripts each: close at accept, OPEN then close/stall, bad OPEN, handshake then stay/UPDATE+close/Cease/garbage; plus none/refused) x identifier dominance x API tail {Close | DeletePeer;Close | DeletePeer;AddPeer;Close} x trigger points (three quiescent points in virtual time and a stride over the step indices of the default execution); later reconnection attempts meet a well-behaved remote, so second sessions arise by themselves; every schedule within the delay bound (quick 1, thorough 2) is executed and the callback-history automaton (alternation, non-overlap, handler placement, GetCapabilities/OnOpenMessage per connection, session markers per connection) is evaluated on each; plus concurrent API tails (a second goroutine calling AddPeer or Close j steps into DeletePeer, or Close j steps into Close, j swept) and three-peer shutdown scenarios (Close while P1..P3 are Established, every peer must see its own OnClose); distinct_nontrivial = distinct observable outcomes",
+		Rule:   "stateless model checking of the real (rewritten) corebgp: {active, passive} x first inbound script x first outbound script (8 scripts each: close at accept, OPEN then close/stall, bad OPEN, handshake then stay/UPDATE+close/Cease/garbage; plus none/refused) x identifier dominance x API tail {Close | DeletePeer;Close | DeletePeer;AddPeer;Close} x trigger points (three quiescent points in virtual time and a stride over the step indices of the default execution); later reconnection attempts meet a well-behaved remote, so second sessions arise by themselves; every schedule within the delay bound (quick 1, thorough 2) is executed and the callback-history automaton (alternation, non-overlap, handler placement, GetCapabilities/OnOpenMessage per connection, session markers per connection) is evaluated on each; plus concurrent API tails (a second goroutine calling AddPeer or Close j steps into DeletePeer, or Close j steps into Close, j swept) slow-callback twins (the tail starts inside / at the end of a 300 ms callback) and three-peer shutdown scenarios (Close while P1..P3 are Established, every peer must see its own OnClose); distinct_nontrivial = distinct observable outcomes",
 		Assume: []string{"delay-bounded schedules", "virtual network (A3)", "quick tier samples the (dominance, tail) dimensions on a rotating diagonal of the full script matrix; thorough takes the full product"},
 		Run:    c01Check,
 		Replay: scnReplay("C01", c01Lookup),
